@@ -431,49 +431,54 @@ fn judge_case(c: &SCase) -> Verdict {
     }
     let scen = ["full", "prefix-then-other-key", "pause T-1", "pause T", "pause T+1"][c.scenario as usize % 5];
     let describe = || format!("{text}typed sequence #{which} {:?} ({scen}, {} hand, mode {}): output {}", seq.iter().map(item_text).collect::<Vec<_>>(), if c.right_hand { "right" } else { "left" }, c.mode, fmt_outs(&outs));
+    // F35: an O- group followed by further items cannot be completed when another
+    // sequence starts with the same keys, in the typed order, as plain (non-overlapping)
+    // items: the standard tracking stays valid through the group, and when it finally
+    // fails the overlap tracking only retries with a second end-of-overlap marker; sequence
+    // mode is cancelled or backtracks into a different, shorter sequence.
+    let has_twin = || -> bool {
+        let (steps_all, chars_all) = typing(seq, c.perm, c.right_hand);
+        // key codes (with modifier masks ignored: groups have none) typed up to the end of each overlap group
+        let mut typed_keys: Vec<u16> = vec![];
+        let mut idx = 0usize;
+        let mut twin = false;
+        for it in seq.iter() {
+            let n = match it {
+                SI::Key(_) | SI::Mod(..) => 1,
+                SI::ModGroup(_, ks) | SI::Overlap(ks) => ks.len(),
+            };
+            for ci in &chars_all[idx..idx + n] {
+                if let Step::Down(k) = steps_all[*ci] {
+                    typed_keys.push(k);
+                }
+            }
+            idx += n;
+            if matches!(it, SI::Overlap(_)) && idx < chars_all.len() {
+                for (j, other) in c.seqs.iter().enumerate() {
+                    if j == which {
+                        continue;
+                    }
+                    for oe in encodings(other).iter().map(|e| e.iter().copied().filter(|x| *x != OVERLAP).collect::<Vec<u16>>()) {
+                        if oe.len() >= typed_keys.len() && oe[..typed_keys.len()].iter().zip(typed_keys.iter()).all(|(a, b)| a & 0x03ff == *b) {
+                            twin = true;
+                        }
+                    }
+                }
+            }
+        }
+        twin
+    };
     if expect_fire {
         if fired != vec![which] {
-            // F35: an O- group followed by further items cannot be completed when another
-            // sequence starts with the same keys, in the typed order, as plain (non-overlapping)
-            // items: the standard tracking stays valid through the group, and when it finally
-            // fails the overlap tracking only retries with a second end-of-overlap marker.
-            {
-                let (steps_all, chars_all) = typing(seq, c.perm, c.right_hand);
-                // key codes (with modifier masks ignored: groups have none) typed up to the end of each overlap group
-                let mut typed_keys: Vec<u16> = vec![];
-                let mut idx = 0usize;
-                let mut twin = false;
-                for it in seq.iter() {
-                    let n = match it {
-                        SI::Key(_) | SI::Mod(..) => 1,
-                        SI::ModGroup(_, ks) | SI::Overlap(ks) => ks.len(),
-                    };
-                    for ci in &chars_all[idx..idx + n] {
-                        if let Step::Down(k) = steps_all[*ci] {
-                            typed_keys.push(k);
-                        }
-                    }
-                    idx += n;
-                    if matches!(it, SI::Overlap(_)) && idx < chars_all.len() {
-                        for (j, other) in c.seqs.iter().enumerate() {
-                            if j == which {
-                                continue;
-                            }
-                            for oe in encodings(other).iter().map(|e| e.iter().copied().filter(|x| *x != OVERLAP).collect::<Vec<u16>>()) {
-                                if oe.len() >= typed_keys.len() && oe[..typed_keys.len()].iter().zip(typed_keys.iter()).all(|(a, b)| a & 0x03ff == *b) {
-                                    twin = true;
-                                }
-                            }
-                        }
-                    }
-                }
-                if twin {
-                    return Verdict::failed("mismatch:sequence-not-fired:overlap-group-then-more-with-twin", format!("{}\nvirtual keys fired: {fired:?}, expected exactly [{which}]", describe()));
-                }
+            if has_twin() {
+                return Verdict::failed("mismatch:overlap-group-then-more-with-twin:not-fired", format!("{}\nvirtual keys fired: {fired:?}, expected exactly [{which}]", describe()));
             }
             return Verdict::failed("mismatch:sequence-not-fired-exactly-once", format!("{}\nvirtual keys fired: {fired:?}, expected exactly [{which}]", describe()));
         }
     } else if !fired.is_empty() {
+        if !fired.contains(&which) && cut_at.is_none() && has_twin() {
+            return Verdict::failed("mismatch:overlap-group-then-more-with-twin:fired-other", format!("{}\nvirtual keys fired: {fired:?}, expected none", describe()));
+        }
         return Verdict::failed("mismatch:sequence-fired-unexpectedly", format!("{}\nvirtual keys fired: {fired:?}, expected none", describe()));
     }
     if !sim.k.sequence_state.is_inactive() && !c.always_on {
